@@ -508,3 +508,30 @@ pub fn refused_value(property: &'static str) -> ReplCell {
     };
     c
 }
+
+/// Two entities with the same components: removals, despawns and spawns on one of them in one
+/// tick, then on the other in a later tick (per-tick scratch state of the server - pooled
+/// removal lists, per-client counters - must not carry over from one tick or entity to the next).
+pub fn pool_reuse(property: &'static str) -> ReplCell {
+    let mut c = base("pool-reuse", property);
+    c.init = vec![Op::Spawn(0, AB), Op::Spawn(1, AB)];
+    c.alphabet = vec![
+        Op::Nop,
+        Op::Rm(0, TA),
+        Op::Rm(0, TB),
+        Op::Rm(1, TA),
+        Op::Rm(1, TB),
+        Op::Despawn(0),
+        Op::Despawn(1),
+        Op::Spawn(2, M_A),
+        Op::Mut(1, TA),
+    ];
+    c.env = Env {
+        hold_acks: false,
+        hold_updates: 1,
+        mutations: MutMenu::Hold,
+        leftover_choice: false,
+        lossy: false,
+    };
+    c
+}
